@@ -181,9 +181,23 @@ func (g *genB) finish(body string) string {
 		}
 		name := bPkgName[a]
 		local := a
-		if g.tp.Int(3) == 0 {
+		switch g.tp.Int(6) {
+		case 0, 1:
 			// files of one package may disagree on the alias of a path
 			local = a + "x"
+		case 2:
+			// ... or call it like another package of the universe
+			cands := []string{"afoo", "bfoo", "onebaz", "thing", "mn", "bar", "baz", "foo", "client"}
+			cnd := cands[g.tp.Int(len(cands))]
+			clash := taken[cnd]
+			for _, o := range as {
+				if bPkgName[o] == cnd || o == cnd {
+					clash = true
+				}
+			}
+			if !clash {
+				local = cnd
+			}
 		}
 		if !taken[name] && g.tp.Int(3) != 0 {
 			local = name
